@@ -12,8 +12,10 @@ EXTENDS Dataflow, Json, IOUtils
 Recs == ndJsonDeserialize("prog_records.ndjson")
 
 VARIABLES s, i, env, gone, bad,
+          cview,   \* cache prefix -> shards (0-based) whose file was complete at the last listing
+          cexp,    \* cache prefix -> expected rows of every shard (a sequence of shards)
           nj, nvals   \* a run event is evaluated node by node: nvals = values of nodes 1..nj of its program
-vars == <<s, i, env, gone, bad, nj, nvals>>
+vars == <<s, i, env, gone, bad, cview, cexp, nj, nvals>>
 
 Has(r, f) == f \in DOMAIN r
 
@@ -63,12 +65,45 @@ SeqOfSet2(S) == IF S = {} THEN <<>> ELSE LET m == CHOOSE x \in S : TRUE IN <<m>>
 
 Fail(r, ev, what, detail) == [id |-> r.id, exec |-> r.exec, seq |-> ev.seq, do |-> ev.do, what |-> what, detail |-> detail]
 
-Init == s = 1 /\ i = 0 /\ env = <<>> /\ gone = {} /\ bad = <<>> /\ nj = 0 /\ nvals = <<>>
+Init == s = 1 /\ i = 0 /\ env = <<>> /\ gone = {} /\ bad = <<>> /\ cview = <<>> /\ cexp = <<>> /\ nj = 0 /\ nvals = <<>>
 
 ArgVals(ev) == [k \in DOMAIN ev.args |-> env[ev.args[k]].v]
 \* results the program actually uses (its arg nodes), with everything they were built from
 UsedArgs(ev) == {ev.args[ev.prog.nodes[n].arg + 1] : n \in {m \in DOMAIN ev.prog.nodes : ev.prog.nodes[m].op = "arg"}}
 ArgDeps(ev) == UNION {{a} \cup env[a].deps : a \in UsedArgs(ev)}
+
+CacheNodes(p) == {n \in DOMAIN p.nodes : p.nodes[n].op \in {"cache", "cachepartial"}}
+UpdF(f, k, v) == [x \in (DOMAIN f) \cup {k} |-> IF x = k THEN v ELSE f[x]]
+ViewOf(prefix) == IF prefix \in DOMAIN cview THEN cview[prefix] ELSE {}
+CallsOf(ev, key) == IF key \in DOMAIN ev.calls THEN ev.calls[key] ELSE 0
+
+(* a cached shard's upstream user functions are not invoked in a later run: for a map node feeding a cache
+   node directly, the number of calls must be the rows of the shards the driver did NOT find cached
+   (Cache: all or nothing; CachePartial: per shard) *)
+SkipFails(r, ev, p, vals) ==
+  LET cs == {c \in CacheNodes(p) : p.nodes[p.nodes[c].in[1] + 1].op = "map"}
+      one(c) ==
+        LET m == p.nodes[c].in[1] + 1
+            inv == vals[p.nodes[m].in[1] + 1]
+            V == ViewOf(p.nodes[c].prefix)
+            all == {x - 1 : x \in 1..inv.n}
+            miss == IF p.nodes[c].op = "cache" THEN (IF all \subseteq V THEN {} ELSE all) ELSE all \ V
+            want == SumSeq([x \in 1..inv.n |-> IF (x - 1) \in miss THEN Len(inv.sh[x]) ELSE 0])
+            usesm == Cardinality({k \in DOMAIN p.nodes : \E q \in DOMAIN p.nodes[k].in : p.nodes[k].in[q] = m - 1})
+        IN IF ~inv.exact \/ HasOp(p, {"head"}) \/ usesm > 1 THEN <<>>
+           ELSE IF CallsOf(ev, ToString(m - 1) \o "/map") = want THEN <<>>
+           ELSE <<Fail(r, ev, "CachedShardsSkipRecomputation", p.nodes[c].prefix)>>
+      RECURSIVE All(_)
+      All(S) == IF S = {} THEN <<>> ELSE LET c == CHOOSE x \in S : TRUE IN one(c) \o All(S \ {c})
+  IN All(cs)
+
+\* expected shard contents of the cache files written by this program (when the value fixes them)
+CexpAfter(p, vals) ==
+  LET RECURSIVE Upd(_, _)
+      Upd(S, f) == IF S = {} THEN f
+                   ELSE LET c == CHOOSE x \in S : TRUE IN
+                        Upd(S \ {c}, IF vals[c].exact /\ vals[c].ordered /\ ~vals[c].weak THEN UpdF(f, p.nodes[c].prefix, vals[c].sh) ELSE f)
+  IN Upd(CacheNodes(p), cexp)
 
 FaultNodes(p) == {n \in DOMAIN p.nodes : "fault" \in DOMAIN p.nodes[n]}
 NoBind == [bind |-> FALSE, v |-> 0, cm |-> 0, cf |-> 0, cok |-> FALSE]
@@ -92,6 +127,8 @@ JudgeFaulty(r, ev) ==
 
 JudgeRun(r, ev) ==
   IF Has(ev, "skipped") THEN [fails |-> <<>>] @@ NoBind
+  \* a run made under injected file-layer faults (C13) may fail or retry tasks; only the files it leaves are judged
+  ELSE IF Has(ev, "lenient") THEN [fails |-> <<>>] @@ NoBind
   ELSE IF Has(ev, "fault_fired") /\ ev.fault_fired > 0 /\ FaultNodes(ev.prog) # {}
           /\ (ev.err # "" \/ Has(ev, "panic") \/ (ev.prog.nodes[CHOOSE x \in FaultNodes(ev.prog) : TRUE].fault.persist))
        THEN [fails |-> JudgeFaulty(r, ev)] @@ NoBind
@@ -131,7 +168,8 @@ JudgeRun(r, ev) ==
                 ELSE out
   IN [fails |-> AllTaps(p.taps)
                \o (IF ev.nshard = out.n THEN <<>> ELSE <<Fail(r, ev, "ShardCount", "")>>)
-               \o (IF cntOK THEN <<>> ELSE <<Fail(r, ev, "CountersAreSumOfIncrements", "")>>),
+               \o (IF cntOK THEN <<>> ELSE <<Fail(r, ev, "CountersAreSumOfIncrements", "")>>)
+               \o SkipFails(r, ev, p, vals),
       bind |-> TRUE, v |-> pinned, cm |-> ownMap, cf |-> ownFil, cok |-> ownOK /\ depsOK]
 
 JudgeScan(r, ev) ==
@@ -143,7 +181,7 @@ JudgeScan(r, ev) ==
   ELSE IF AllowedScan(env[ev.res].v, ev.rows) THEN <<>>
   ELSE <<Fail(r, ev, "ScanRowsAsFirstEvaluation", ev.res)>>
 
-Runnable(ev) == ev.do = "run" /\ ~Has(ev, "skipped") /\ ~Has(ev, "panic") /\ ev.err = ""
+Runnable(ev) == ev.do = "run" /\ ~Has(ev, "skipped") /\ ~Has(ev, "panic") /\ (ev.err = "" \/ Has(ev, "lenient"))
                 /\ ~(Has(ev, "fault_fired") /\ ev.fault_fired > 0 /\ FaultNodes(ev.prog) # {} /\ ev.prog.nodes[CHOOSE x \in FaultNodes(ev.prog) : TRUE].fault.persist)
 
 (* evaluate the next node of the program of the current run event *)
@@ -153,7 +191,7 @@ EvalNode ==
      /\ Runnable(ev) /\ nj < Len(ev.prog.nodes)
      /\ nvals' = Append(nvals, NodeV(ev.prog.nodes[nj + 1], nvals, ArgVals(ev)))
      /\ nj' = nj + 1
-  /\ UNCHANGED <<s, i, env, gone, bad>>
+  /\ UNCHANGED <<s, i, env, gone, bad, cview, cexp>>
 
 Step ==
   /\ s <= Len(Recs) /\ i < Len(Recs[s].events)
@@ -165,10 +203,21 @@ Step ==
                /\ bad' = bad \o jr.fails
                /\ env' = IF jr.bind THEN [x \in DOMAIN env \cup {ev.as} |-> IF x = ev.as THEN [v |-> jr.v, deps |-> ArgDeps(ev), cm |-> jr.cm, cf |-> jr.cf, cok |-> jr.cok] ELSE env[x]] ELSE env
                /\ gone' = gone
-          [] ev.do = "scan" -> bad' = bad \o JudgeScan(r, ev) /\ UNCHANGED <<env, gone>>
-          [] ev.do = "discard" -> gone' = (IF Has(ev, "skipped") THEN gone ELSE gone \cup {ev.res} \cup env[ev.res].deps) /\ UNCHANGED <<env, bad>>
-          [] ev.do = "harness-panic" -> bad' = Append(bad, Fail(r, ev, "HarnessPanic", ev.panic)) /\ UNCHANGED <<env, gone>>
-          [] OTHER -> UNCHANGED <<env, gone, bad>>
+               /\ cexp' = IF Runnable(ev) /\ nj = Len(ev.prog.nodes) THEN CexpAfter(ev.prog, nvals) ELSE cexp
+               /\ cview' = cview
+          [] ev.do = "cachefiles" ->
+               LET pre == ev.prefix
+                   st(x) == ev.files[ToString(x)]
+                   corrupt == {x \in 0..(ev.n - 1) : st(x).state = "corrupt"}
+                   wrong == {x \in 0..(ev.n - 1) : st(x).state = "ok" /\ pre \in DOMAIN cexp /\ st(x).rows # cexp[pre][x + 1]}
+               IN /\ bad' = bad \o (IF corrupt = {} THEN <<>> ELSE <<Fail(r, ev, "ShardFileCompleteOrAbsent", "corrupt")>>)
+                              \o (IF wrong = {} THEN <<>> ELSE <<Fail(r, ev, "ShardFileCompleteOrAbsent", "incomplete")>>)
+                  /\ cview' = UpdF(cview, pre, {x \in 0..(ev.n - 1) : st(x).state = "ok"})
+                  /\ UNCHANGED <<env, gone, cexp>>
+          [] ev.do = "scan" -> bad' = bad \o JudgeScan(r, ev) /\ UNCHANGED <<env, gone, cview, cexp>>
+          [] ev.do = "discard" -> gone' = (IF Has(ev, "skipped") THEN gone ELSE gone \cup {ev.res} \cup env[ev.res].deps) /\ UNCHANGED <<env, bad, cview, cexp>>
+          [] ev.do = "harness-panic" -> bad' = Append(bad, Fail(r, ev, "HarnessPanic", ev.panic)) /\ UNCHANGED <<env, gone, cview, cexp>>
+          [] OTHER -> UNCHANGED <<env, gone, bad, cview, cexp>>
   /\ i' = i + 1 /\ s' = s /\ nj' = 0 /\ nvals' = <<>>
 
 End ==
@@ -177,7 +226,7 @@ End ==
                                              what |-> "DriverProcessSurvives", detail |-> Recs[s].crash])
             ELSE IF Recs[s].hung THEN Append(bad, [id |-> Recs[s].id, exec |-> Recs[s].exec, seq |-> 0, do |-> "scenario",
                                              what |-> "NoRunBlocksForever", detail |-> ""]) ELSE bad
-  /\ s' = s + 1 /\ i' = 0 /\ env' = <<>> /\ gone' = {} /\ nj' = 0 /\ nvals' = <<>>
+  /\ s' = s + 1 /\ i' = 0 /\ env' = <<>> /\ gone' = {} /\ cview' = <<>> /\ cexp' = <<>> /\ nj' = 0 /\ nvals' = <<>>
 
 Next == EvalNode \/ Step \/ End
 Spec == Init /\ [][Next]_vars
